@@ -17,7 +17,10 @@ Theorem c16_source_facts :
   Extracted.reverse_binding = ["cl.exiting = conn.exiting"; "conn.requests = requests"]%string /\
   Extracted.callsites_reverseClientBuilder = ["NewServer(value)"; "handleWS"]%string /\
   Extracted.handleWS_builder_call = "ctx, err = s.reverseClientBuilder(ctx, wc)"%string /\
-  Extracted.client_handler_setup = ["h.aliasedMethods = config.aliasedHandlerMethods"; "sc.methodNameFormatter = config.methodNamer"]%string.
+  Extracted.client_handler_setup = ["h.aliasedMethods = config.aliasedHandlerMethods"; "sc.methodNameFormatter = config.methodNamer"]%string /\
+  (* the reverse client names methods with the formatter the server has when a connection is upgraded, whatever the
+     order in which the options were listed *)
+  Extracted.reverse_formatter_read_per_connection = true.
 Proof. repeat split; reflexivity. Qed.
 
 (* same correlation guarantees as forward calls (any number of pending reverse calls, any completion order) *)
